@@ -224,10 +224,11 @@ class Walker(object):
     signed(label, eid, nbits) -> value used as new reference, constant(label, value), count() flat entries so far,
     entry_kinds (list of kinds per flat entry), factor_value(), last_bits(n)"""
 
-    def __init__(self, tabs, io):
+    def __init__(self, tabs, io, sink=None):
         self.tb, self.td = tabs
         self.io = io
         self.r = Regs()
+        self.sink = sink or NullSink()
 
     def elem_info(self, eid):
         if eid not in self.tb:
@@ -247,17 +248,20 @@ class Walker(object):
             if n.kind == 'elem':
                 x = (n.id // 1000) % 100
                 if not (1 <= x <= 9 or x == 31):
+                    self.sink.novalue('%06d' % n.id)
                     return
         # 203YYY: element descriptors define new reference values
         if r.newref_bits and n.kind == 'elem':
             info = self.elem_info(n.id)
             if info['unit'] == 'CCITT IA5':
                 raise RefError('new reference value for a character element')
+            self.sink.value(io.count())
             v = io.signed('%06d' % n.id, n.id, r.newref_bits)
             r.newrefs[n.id] = v
             return
         # 206YYY: the next descriptor is a local one of YYY bits
         if r.skip_bits:
+            self.sink.value(io.count())
             io.code('S%05d' % n.id, n.id, r.skip_bits, kind='skipped')
             r.skip_bits = 0
             return
@@ -269,17 +273,26 @@ class Walker(object):
             y = n.id % 1000
             if n.factor is None:
                 count = y
+                self.sink.enter_rep('%06d' % n.id, None)
             else:
                 if n.factor in (31011, 31012):
                     raise RefError('delayed repetition not covered')
+                fidx = io.count()
+                self.sink.hold = True          # the factor belongs to the replication node, not to the member list
                 self.element(n.factor)
+                self.sink.hold = False
                 count = io.factor_value()
                 if count is None or count < 0:
                     raise RefError('bad replication factor %r' % (count,))
+                self.sink.enter_rep('%06d' % n.id, fidx)
             for _ in range(count):
+                self.sink.repetition()
                 self.walk(n.members)
+            self.sink.leave()
         elif n.kind == 'seq':
+            self.sink.enter_seq('%06d' % n.id)
             self.walk(n.members)
+            self.sink.leave()
         elif n.kind == 'op':
             self.operator(n.id)
         else:
@@ -343,8 +356,11 @@ class Walker(object):
         io = self.io
         info = self.elem_info(eid)
         x = (eid // 1000) % 100
+        assoc_idx = None
         if r.assoc and x != 31:
+            assoc_idx = io.count()
             io.code('A%05d' % eid, eid, sum(r.assoc), kind='assoc')
+        self.sink.element(io.count(), eid, assoc_idx, marker, self)
         if x == 33 and marker is None:
             # quality information after 222000: the k-th class-33 value belongs to the k-th zero bit
             if r.qa == 1:
@@ -380,6 +396,7 @@ class Walker(object):
         r = self.r
         io = self.io
         code, y = oid // 1000, oid % 1000
+        self.sink.operator(oid, io.count(), self)
         if code == 201:
             r.dw = y - 128 if y else 0
         elif code == 202:
@@ -417,7 +434,7 @@ class Walker(object):
                     r.qa = 1
             else:
                 if r.assoc:
-                    io.code('A%05d' % oid, oid, sum(r.assoc), kind='assoc')
+                    raise RefError('marker operator inside an associated-field scope is not covered')
                 idx, eid = self.next_selected()
                 io.link(idx)
                 info = self.elem_info(eid)
@@ -452,6 +469,152 @@ class Walker(object):
             self.element(eid, marker=marker, over_bits=over_bits, over_ref=over_ref)
         finally:
             r.assoc = saved_assoc
+
+
+class NullSink(object):
+    hold = False
+
+    def novalue(self, label):
+        pass
+
+    def value(self, index):
+        pass
+
+    def enter_rep(self, label, factor_index):
+        pass
+
+    def repetition(self):
+        pass
+
+    def enter_seq(self, label):
+        pass
+
+    def leave(self):
+        pass
+
+    def element(self, index, eid, assoc_index, marker, walker):
+        pass
+
+    def operator(self, oid, index, walker):
+        pass
+
+
+class StructSink(NullSink):
+    """Expected hierarchical view (C07 / C09 / C16), from the statements: every value is a member, a replication
+    factor or an attribute of its owner; one envelope per replication with one list per repetition; sequences keep
+    their members; an associated field (with its 031021 meaning) is an attribute of the element it precedes; a
+    bitmapped value (with its 008023 / 008024 meaning for first-order / difference statistics) is an attribute of the
+    element its zero bit designates and stays a member where it stands.
+
+    Nodes are dicts: {'id': label-or-None, 'index': flat index | None, 'members': [...], 'factor': node,
+    'attributes': [node...], 'virtual': bool}; ids of value nodes are filled in from the labels afterwards."""
+
+    def __init__(self):
+        self.root = []
+        self.frames = [['root', self.root, None]]
+        self.by_index = {}
+        self.hold = False
+        self.meaning_assoc = None
+        self.meaning = {}
+        self.wait = {}
+
+    def _cur(self):
+        f = self.frames[-1]
+        return f[2] if f[0] == 'rep' else f[1]
+
+    def _add(self, node):
+        self._cur().append(node)
+        return node
+
+    def _vnode(self, index):
+        n = {'index': index}
+        self.by_index[index] = n
+        return n
+
+    def novalue(self, label):
+        self._add({'id': label})
+
+    def value(self, index):
+        self._add(self._vnode(index))
+
+    def enter_rep(self, label, factor_index):
+        n = {'id': label, 'members': []}
+        if factor_index is not None:
+            n['factor'] = self.by_index[factor_index]
+        self._add(n)
+        self.frames.append(['rep', n['members'], None])
+
+    def repetition(self):
+        f = self.frames[-1]
+        cur = []
+        f[1].append(cur)          # one list per repetition inside the envelope
+        f[2] = cur
+
+    def enter_seq(self, label):
+        n = {'id': label, 'members': []}
+        self._add(n)
+        self.frames.append(['seq', n['members'], None])
+
+    def leave(self):
+        self.frames.pop()
+
+    def element(self, index, eid, assoc_index, marker, walker):
+        node = self._vnode(index)
+        if assoc_index is not None:
+            a = self._vnode(assoc_index)
+            if self.meaning_assoc is not None:
+                a['attributes'] = [dict(self.meaning_assoc, virtual=True)]
+            node['attributes'] = [a]
+        if marker is not None:
+            code = marker // 1000
+            if code in (224, 225) and self.meaning.get(code) is not None:
+                node.setdefault('attributes', []).append(dict(self.meaning[code], virtual=True))
+        if not self.hold:
+            self._add(node)
+        if marker is None:
+            if eid == 31021 and walker.r.assoc:
+                self.meaning_assoc = node
+            elif eid == 8023 and self.wait.get(224):
+                self.meaning[224] = node
+                self.wait[224] = False
+            elif eid == 8024 and self.wait.get(225):
+                self.meaning[225] = node
+                self.wait[225] = False
+
+    def operator(self, oid, index, walker):
+        code, y = oid // 1000, oid % 1000
+        if code in (201, 202, 203, 204, 206, 207, 208, 221, 235):
+            self.novalue('%06d' % oid)
+        elif code == 205:
+            self.value(index)
+        elif code in (222, 223, 224, 225, 232) and y == 0:
+            self.value(index)
+            if code in (224, 225):
+                self.wait[code] = True
+        elif code in (236, 237):
+            self.value(index)
+        # 2XX255 markers arrive through element()
+
+    def finish(self, labels, links):
+        """attach bitmapped values to their owners and fill in the ids"""
+        for j, owner in sorted(links.items()):
+            self.by_index[owner].setdefault('attributes', []).append(dict(self.by_index[j], virtual=True))
+
+        def fill(nodes):
+            for n in nodes:
+                if isinstance(n, list):
+                    fill(n)
+                    continue
+                if 'index' in n and n['index'] is not None:
+                    n['id'] = labels[n['index']]
+                if 'members' in n:
+                    fill(n['members'])
+                if 'factor' in n:
+                    fill([n['factor']])
+                if 'attributes' in n:
+                    fill(n['attributes'])
+        fill(self.root)
+        return self.root
 
 
 # ------------------------------------------------------------------------------------------------
@@ -697,10 +860,14 @@ class RefDecoder(object):
             tree = build_tree(m.descriptors, tabs)
             m.tree = tree
             m.subsets = []
+            m.structures = []
             if m.compressed:
                 io = DecodeIO(b, m.n_subsets, True)
-                Walker(tabs, io).walk(tree)
+                sink = StructSink()
+                Walker(tabs, io, sink).walk(tree)
+                st = sink.finish(io.labels, io.links)
                 for i in range(m.n_subsets):
+                    m.structures.append(st)
                     m.subsets.append(dict(labels=io.labels, values=io.values[i], links=io.links, kinds=io.kinds,
                                           has_bits=io.has_bits))
                 m.fields = io.fields
@@ -708,7 +875,9 @@ class RefDecoder(object):
                 m.fields = []
                 for i in range(m.n_subsets):
                     io = DecodeIO(b, 1, False)
-                    Walker(tabs, io).walk(tree)
+                    sink = StructSink()
+                    Walker(tabs, io, sink).walk(tree)
+                    m.structures.append(sink.finish(io.labels, io.links))
                     m.subsets.append(dict(labels=io.labels, values=io.values[0], links=io.links, kinds=io.kinds,
                                           has_bits=io.has_bits))
                     m.fields.extend(io.fields)
